@@ -225,7 +225,14 @@ func newWorker() *worker {
 var run *vlib.Run
 var evals, modified, passthrough atomic.Int64
 
-func isHTML(ct string) bool { return strings.HasPrefix(ct, "text/html") }
+// isHTML: the media type (what stands in front of the first separator — the repository's own tests write the
+// parameters behind a comma — compared without regard to letter case, RFC 9110 §8.3.1) is text/html.
+func isHTML(ct string) bool {
+	if i := strings.IndexAny(ct, ";, \t"); i >= 0 {
+		ct = ct[:i]
+	}
+	return strings.EqualFold(ct, "text/html")
+}
 
 func (w *worker) check(cfg config, docName string, doc []byte) {
 	evals.Add(1)
@@ -528,7 +535,8 @@ func main() {
 	run = vlib.Start("C20", "exploration")
 	run.RacePass("between overlapping responses through one live-reload proxy handler")
 	encs := []string{"", "gzip", "br", "zstd"}
-	cts := []string{"text/html", "text/html; charset=utf-8", "application/json", "text/plain", ""}
+	// the media type in other letter cases and with blanks in front of the parameters; types that only begin like it
+	cts := []string{"text/html", "text/html; charset=utf-8", "application/json", "text/plain", "", "Text/HTML; Charset=UTF-8", "TEXT/HTML", "text/html ;charset=utf-8", "text/html, charset=utf-8", "text/html-sandboxed", "text/htmlx; charset=utf-8"}
 	csps := []struct{ csp, nonce string }{
 		{"", ""},
 		{"default-src 'self'", ""},
